@@ -46,6 +46,23 @@ CORPUS = [
      "inputs": [[i, True] for i in range(4)], "sched": {"seed": 4, "mode": "lifo", "p_emit": 1.0}},
 ]
 
+# un-awaited producers (inside the guarantee since gather emits in arrival order): the first is the interleaving
+# "three un-awaited emits, the oldest task finishes, a new emit arrives, its task finishes next"
+CORPUS += [
+    {"stages": [{"k": "map", "f": ["FInc"]}], "inputs": [[1, True], [2, True], [3, False], [4, True]],
+     "sched": {"seed": 0, "mode": "fifo", "p_emit": 1.0, "await": [False, False, False, False],
+               "actions": [["emit", 0], ["emit", 1], ["emit", 2], ["done", 1], ["emit", 3], ["done", 7], ["done", 5], ["done", 3]]}},
+    {"stages": [{"k": "map", "f": ["FInc"]}], "inputs": [[1, True], [2, True], [3, True]],
+     "sched": {"seed": 0, "mode": "lifo", "p_emit": 1.0, "await": [False, False, False]}},
+    {"stages": [{"k": "union", "a": [{"k": "map", "f": ["FInc"]}], "b": [{"k": "map", "f": ["FDouble"]}]}],
+     "inputs": [[5, True], [6, False], [7, True]], "sched": {"seed": 3, "mode": "random", "p_emit": 0.5, "await": [False, True, False]}},
+    {"stages": [{"k": "partition", "n": 2}, {"k": "starmap", "f": ["NSumK", 1]}, {"k": "buffer", "n": 1}],
+     "inputs": [[i, i % 2 == 1] for i in range(6)], "sched": {"seed": 5, "mode": "lifo", "p_emit": 0.9, "await": [False] * 6}},
+    {"stages": [{"k": "accumulate", "f": ["BAdd"], "start": None, "rs": True, "ws": False},
+                {"k": "sliding_window", "n": 2, "partial": True}],
+     "inputs": [[i, True] for i in range(5)], "sched": {"seed": 7, "mode": "random", "p_emit": 0.5, "await": [False, True, False, False, True]}},
+]
+
 REAL_CASES = [
     {"stages": [{"k": "map", "f": ["FInc"]}], "inputs": [[i, False] for i in range(8)]},
     {"stages": [{"k": "map", "f": ["FAddK", 3], "style": "kw"}, {"k": "partition", "n": 2},
@@ -98,7 +115,8 @@ def unawaited_observation():
     return {"pipeline": "scatter().map(inc).gather(), three emits without awaiting, tasks finished newest first",
             "local": loc["sunk"], "dask_bare_gather": dk["sunk"], "dask_buffer_before_gather": dkb["sunk"],
             "reordered": dk["sunk"] != loc["sunk"],
-            "status": "outside the property's quantifier (the producer ignores backpressure); not a violation"}
+            "status": "informational: since gather emits in arrival order un-awaited producers are inside the guarantee and "
+                      "are part of the generated schedules (judged by the oracle)"}
 
 
 def real_cluster(cases):
@@ -129,7 +147,8 @@ def run(prop, tier, seed, replay=None):
     t0 = time.time()
     results = []
     found = {}
-    hist_kind, hist_mode, hist_buf, hist_len = {}, {}, {}, {}
+    hist_kind, hist_mode, hist_buf, hist_len, hist_prod = {}, {}, {}, {}, {}
+    concurrent_emit_runs = 0
     distinct = set()
     ntasks = nsteps = 0
     reorder_schedules = 0
@@ -144,6 +163,12 @@ def run(prop, tier, seed, replay=None):
         for k in C.kinds_of(case):
             hist_kind[k] = hist_kind.get(k, 0) + 1
         hist_mode[case["sched"]["mode"]] = hist_mode.get(case["sched"]["mode"], 0) + 1
+        aw = case["sched"].get("await")
+        pk = "all awaited" if aw is None or all(aw) else ("none awaited" if not any(aw) else "mixed")
+        hist_prod[pk] = hist_prod.get(pk, 0) + 1
+        # how many emits were issued while an earlier emit was still incomplete
+        if any(s[0][0] == "emit" for s in dk["steps"]) and dk.get("max_pending_emits", 0) > 1:
+            concurrent_emit_runs += 1
         nb = len(C.buffer_positions(case))
         hist_buf[nb] = hist_buf.get(nb, 0) + 1
         hist_len[len(case["inputs"])] = hist_len.get(len(case["inputs"]), 0) + 1
@@ -244,8 +269,11 @@ def run(prop, tier, seed, replay=None):
                 "map (closure / positional arg / keyword arg), starmap (plain / keyword arg), accumulate (start or not, "
                 "returns_state, with_state, keyword arg), partition, sliding_window, zip / union of two chains forked from one "
                 "upstream, 0-2 buffers on the main chain; 1-6 (1-9) integer inputs, ~60% carrying a RefCounter; schedule produced "
-                "online by a seeded policy (random / newest-eligible-first / oldest-first, emit probability 0.2..1.0) with an awaited "
-                "producer. non-trivial = at least two submitted tasks and at least one delivery; distinct by (stages, inputs, executed schedule)",
+                "online by a seeded policy (random / newest-eligible-first / oldest-first, emit probability 0.2..1.0); producer "
+                "discipline per case: every emit awaited (40%), none awaited (25%), mixed per emit (35%), so new emits arrive between "
+                "task completions while earlier results are still pending at gather; 45% of the not-fully-awaited cases use pipelines "
+                "of mutually independent tasks (map / starmap / partition / sliding_window / union, no accumulate, no buffer, 3-6 inputs) "
+                "so that every completion order of the outstanding tasks is possible. non-trivial = at least two submitted tasks and at least one delivery; distinct by (stages, inputs, executed schedule)",
         "samples": [{"case": results[i][0], "schedule": [s[0] for s in results[i][2]["steps"]], "dask_sink": results[i][2]["sunk"],
                      "local_sink": results[i][1]["sunk"]} for i in (0, len(CORPUS), len(results) - 1) if i < len(results)],
         "traces_validated_against_impl": len(good) - nv,
@@ -256,6 +284,8 @@ def run(prop, tier, seed, replay=None):
         "schedule_steps_executed": nsteps, "tasks_submitted": ntasks,
         "schedules_with_out_of_order_completion": reorder_schedules,
         "node_kind_histogram": hist_kind, "schedule_mode_histogram": hist_mode,
+        "producer_discipline_histogram": hist_prod,
+        "runs_with_several_emits_in_flight": concurrent_emit_runs,
         "buffers_per_pipeline_histogram": {str(k): v for k, v in sorted(hist_buf.items())},
         "inputs_per_case_histogram": {str(k): v for k, v in sorted(hist_len.items())},
         "oracle_signatures_seen": sorted(found),
